@@ -617,8 +617,20 @@ func C17(c *core.Ctx) {
 				if !ok {
 					return 0, 0
 				}
-				if _, isC := core.ConstInt(y); !isC || !isDerefOfField(x, "Mtu") {
+				if !isDerefOfField(x, "Mtu") {
 					return 0, 0
+				}
+				if _, isC := core.ConstInt(y); !isC {
+					// or a minimum chosen among constants (by whether the face fragments)
+					phi, isPhi := core.StripConv(y).(*ssa.Phi)
+					if !isPhi {
+						return 0, 0
+					}
+					for _, e := range phi.Edges {
+						if k, okK := core.ConstInt(core.StripConv(e)); !okK || k <= 0 {
+							return 0, 0
+						}
+					}
 				}
 				switch op {
 				case token.LSS, token.LEQ: // mtu < K: a lower-bound test
@@ -726,6 +738,7 @@ func C17(c *core.Ctx) {
 	c.Extra["decoded_val_field_reads"] = nVal
 
 	c17Round4(c)
+	c17Round4b(c)
 
 	// ---- R17.6 every dereference of an optional element of a decoded message in the
 	// management package (handlers with or without a mutation, dataset queries, the thread's
@@ -1512,4 +1525,173 @@ func c17Round4(c *core.Ctx) {
 		c.Decide(bad == "" && per[0] > 0, "R17.9", "persistency-number-validated:"+core.FuncName(fn), p.Pos(fn.Pos()), fmt.Sprintf("%d conversions of the FacePersistency parameter, each behind a comparison with a persistency", len(effects)), core.FuncName(fn)+" turns the FacePersistency number of the command into a face.Persistency without having compared it with any persistency on some path ("+bad+"): a value such as 99 is answered 200 and stored on the face")
 	}
 	c.Floor("R17.9", "adopted conversions of the FacePersistency parameter", nConv, 2)
+}
+
+// c17Round4b — rules prompted by the second hunt on the repaired tree.
+//
+// R17.13 a status dataset larger than one packet is segmented, or refused by a test on its
+// size IN BYTES: a guard that measures an enc.Wire with len() counts buffers, never fires,
+// and the oversize Data is dropped by the internal face — the dataset Interest is never
+// answered once the tables are moderately large. (Known finding on the current tree.)
+//
+// R17.14 a RIB refresh withdraws from the FIB entry only what the RIB installed there:
+// clearing the whole entry also removes next hops that fib/add-nexthop installed and — for
+// the management prefix — the next hop to the management thread itself. (Known finding;
+// same construct as C16 R16.4.)
+//
+// R17.15 on a face that does not fragment, an MTU below the maximum packet size is refused:
+// the TCP branch of faces/create sets an MTU only behind a test against a bound ≥ the
+// maximum packet size, and faces/update chooses its lower bound by whether the face's link
+// service fragments.
+//
+// R17.16 a period of a command (ExpirationPeriod, milliseconds) is scaled to a
+// time.Duration only behind an upper bound the longest Duration can hold.
+func c17Round4b(c *core.Ctx) {
+	p := c.P
+	pkg := core.ModPath + "/fw/mgmt"
+	maxPkt := int64(8800)
+	if o, ok := p.Pkgs[core.ModPath+"/fw/defn"].Types.Scope().Lookup("MaxNDNPacketSize").(*types.Const); ok {
+		if v, ok := constInt64(o); ok {
+			maxPkt = v
+		}
+	}
+	// ---- R17.13
+	if ms := c.Fn("R17.13", "fw/mgmt", "", "makeStatusDataset"); ms != nil {
+		bad := ""
+		nMake := 0
+		core.InstrsDeep(ms, func(in ssa.Instruction) {
+			if ci, ok := in.(ssa.CallInstruction); ok {
+				if id, okID := core.Callee(ci.Common()); okID && id.Name == "MakeData" {
+					nMake++
+				}
+			}
+			iff, ok := in.(*ssa.If)
+			if !ok {
+				return
+			}
+			_, x, y, okC := core.Cmp(iff.Cond)
+			if !okC {
+				return
+			}
+			for _, pair := range [][2]ssa.Value{{x, y}, {y, x}} {
+				l, isLen := core.LenOf(core.StripConv(pair[0]))
+				k, isC := core.ConstInt(pair[1])
+				if !isLen || !isC || k < 256 {
+					continue
+				}
+				if sl, isS := l.Type().Underlying().(*types.Slice); isS {
+					if _, inner := sl.Elem().Underlying().(*types.Slice); inner {
+						bad = c.Pos(iff)
+					}
+				}
+			}
+		})
+		c.Decide(nMake > 0 && bad == "", "R17.13", "dataset-size-measured-in-bytes", p.Pos(ms.Pos()), "no size guard of the status dataset measures a list of buffers with len()", "makeStatusDataset compares len(dataset) with a byte limit at "+bad+", but dataset is an enc.Wire and len() counts its buffers: the guard never fires, one Data larger than the maximum packet size is built, the internal face drops it, and fib/list, rib/list or faces/list are never answered once the dataset passes about 8.7 kB (roughly 190 FIB entries or 110 faces) — the dataset lists nothing although every command that filled the tables reported 200")
+	}
+	// ---- R17.14
+	if un := c.Fn("R17.14", "fw/table", "RibEntry", "updateNexthopsEnc"); un != nil {
+		var clears []string
+		core.InstrsDeep(un, func(in ssa.Instruction) {
+			if ci, ok := in.(ssa.CallInstruction); ok && ci.Common().IsInvoke() && ci.Common().Method.Name() == "ClearNextHopsEnc" {
+				clears = append(clears, c.Pos(in))
+			}
+		})
+		c.Decide(len(clears) == 0, "R17.14", "rib-refresh-withdraws-only-its-own-nexthops", p.Pos(un.Pos()), "the RIB refresh does not clear the whole FIB entry", "RibEntry.updateNexthopsEnc clears the whole FIB entry of the prefix ("+strings.Join(clears, ", ")+") before it re-inserts the RIB's next hops: rib/register — or a rib/unregister that matches no route — deletes next hops that fib/add-nexthop installed, and rib/register Name=/localhost/nfd on any other face deletes the next hop to the management thread, after which no command is ever answered")
+	}
+	// ---- R17.15
+	nTcp := 0
+	for _, fn := range p.FuncsIn(pkg) {
+		if strings.HasSuffix(p.File(fn.Pos()), "_test.go") {
+			continue
+		}
+		for _, ci := range core.FindCalls(fn, core.CalleeID{Pkg: "fw/face", Recv: "*", Name: "SetMTU"}) {
+			recv, _ := core.CallArgs(ci.Common())
+			if recv == nil {
+				continue
+			}
+			if fa, isFA := core.Strip(recv).(*ssa.FieldAddr); isFA { // promoted from the embedded base
+				recv = fa.X
+			}
+			pt, isPtr := recv.Type().Underlying().(*types.Pointer)
+			if !isPtr {
+				continue
+			}
+			nt, isN := pt.Elem().(*types.Named)
+			if !isN || !strings.Contains(nt.Obj().Name(), "TCP") {
+				continue
+			}
+			nTcp++
+			c.Funcs[core.FuncName(fn)] = true
+			full := &core.Atom{Name: "*params.Mtu < maximum packet size", Match: func(cond ssa.Value) (int, int) {
+				op, x, y, ok := core.Cmp(cond)
+				if !ok || !isDerefOfField(x, "Mtu") {
+					return 0, 0
+				}
+				k, isC := core.ConstInt(y)
+				if !isC {
+					return 0, 0
+				}
+				switch {
+				case op == token.LSS && k >= maxPkt, op == token.LEQ && k >= maxPkt-1:
+					return 1, -1
+				case op == token.GEQ && k >= maxPkt, op == token.GTR && k >= maxPkt-1:
+					return -1, 1
+				}
+				return 0, 0
+			}}
+			present := atomValNonNil("params.Mtu!=nil", func(v ssa.Value) bool { _, ok := core.FieldOf(v, "Mtu"); return ok })
+			g := core.GateDeep(fn, []ssa.Instruction{ci}, neg(full), neg(present))
+			c.Decide(g.OK && g.PerLit[0] > 0, "R17.15", "stream-face-mtu-not-below-a-packet:"+core.FuncName(fn), c.Pos(ci), "the MTU of a TCP face is set only behind Mtu >= maximum packet size", core.FuncName(fn)+" sets the MTU of a TCP face, whose link service does not fragment, without having refused values below the maximum packet size: the command is answered 200 and the face then drops every packet longer than the MTU")
+		}
+	}
+	c.Floor("R17.15", "SetMTU on a TCP transport in fw/mgmt", nTcp, 1)
+	if up := c.Fn("R17.15", "fw/mgmt", "FaceModule", "update"); up != nil {
+		// the lower bound of the MTU depends on whether the selected face fragments
+		reads := false
+		core.InstrsDeep(up, func(in ssa.Instruction) {
+			if fa, ok := in.(*ssa.FieldAddr); ok {
+				if _, f := core.FieldAddrName(fa); f == "IsFragmentationEnabled" {
+					reads = true
+				}
+			}
+			if fl, ok := in.(*ssa.Field); ok {
+				if st, okS := fl.X.Type().Underlying().(*types.Struct); okS && st.Field(fl.Field).Name() == "IsFragmentationEnabled" {
+					reads = true
+				}
+			}
+		})
+		chosen := false
+		core.InstrsDeep(up, func(in ssa.Instruction) {
+			iff, ok := in.(*ssa.If)
+			if !ok {
+				return
+			}
+			_, x, y, okC := core.Cmp(iff.Cond)
+			if !okC || !isDerefOfField(x, "Mtu") {
+				return
+			}
+			if phi, isPhi := core.StripConv(y).(*ssa.Phi); isPhi {
+				for _, e := range phi.Edges {
+					if k, okK := core.ConstInt(core.StripConv(e)); okK && k >= maxPkt {
+						chosen = true
+					}
+				}
+			}
+		})
+		c.Decide(reads && chosen, "R17.15", "update-mtu-bound-knows-fragmentation", p.Pos(up.Pos()), "faces/update compares the MTU with a minimum that is the maximum packet size when the face does not fragment", "faces/update refuses a small MTU by one constant for every face: on a face whose link service does not fragment (TCP, Unix, WebSocket) an MTU below the maximum packet size is accepted with 200 and the face then drops every packet longer than it")
+	}
+	// ---- R17.16
+	nMul, bad := 0, ""
+	for _, fn := range p.FuncsIn(pkg) {
+		if strings.HasSuffix(p.File(fn.Pos()), "_test.go") {
+			continue
+		}
+		n, b := durationScalings(c, fn)
+		nMul += n
+		if b != "" {
+			bad = b
+		}
+	}
+	c.Decide(bad == "", "R17.16", "command-period-bounded-before-scaling", "-", fmt.Sprintf("%d scalings of a command parameter to a time.Duration, each behind an upper bound", nMul), "a management handler scales a 64-bit period of the command to a time.Duration without an upper bound ("+bad+"): ExpirationPeriod values above 9223372036854 ms wrap to zero, to another period or to a negative one, the command is answered 200 and the response and rib/list report the wrapped value")
+	c.Floor("R17.16", "scalings of a command parameter to a Duration in fw/mgmt", nMul, 1)
 }
